@@ -19,12 +19,12 @@ def bounds(tier):
 
 
 def slices(tier, rng):
-    return [Slice('items-ps%d' % ps, 't_items', 6, lambda a, ps=ps: [a[0] == ps] + [z3.ULE(a[i], 1) for i in range(1, 6)],
+    return [Slice('items-ps%d' % ps, 't_items', 7, lambda a, ps=ps: [a[0] == ps] + [z3.ULE(a[i], 1) for i in range(1, 7)],
                   opts={'must_reach': ['ok']}) for ps in (4, 8)]
 
 
 def collision(a):
-    return z3.Or(a[1] != 0, a[3] != 0, a[4] != 0)
+    return z3.Or(a[1] != 0, a[3] != 0, a[4] != 0, a[6] != 0)
 
 
 def leaf_queries(I, a, leaf, py, sl):
@@ -51,9 +51,10 @@ def region_env(a, sl): return {}
 def describe(template, args):
     a = [int(x) for x in args]
     out = ['// pointer size %d' % a[0], 'module m:']
-    out.append('  pub type T { %spub a: *const u8 }' % ('vftable { pub fn f(&self); }, ' if a[3] else ''))
+    out.append('  pub type T { %spub a: *const u8 }' % ('vftable { pub fn f(&self); }, ' if (a[3] or (len(a) > 6 and a[6])) else ''))
     if a[1]: out.append('  pub enum T: u32 { A }' if a[2] else '  #[align(8)] pub type T { pub b: u64 }')
     if a[3]: out.append('  pub type TVftable { pub z: *const u8 }')
     if a[4]: out.append('  #[size(4), align(4)] extern type T;')
+    if len(a) > 6 and a[6]: out.append('  #[size(64), align(8)] extern type TVftable;   (T has a vftable block)')
     if a[5]: out.append('module n:\n  pub type T { pub c: *mut u8 }')
     return '\n'.join(out)
